@@ -78,10 +78,13 @@ def run(ck):
                 flat = Gt.reshape(-1, d)
                 S = (flat ** 2).sum(0) if diag else flat.T @ flat
                 S = S / (S.max() + 1e-30)
+                # kernels that consume a root: the matrix-power routine adds 1e-8 to the diagonal in place, so the returned matrix may carry it;
+                # the property does not ask for it, so both forms are accepted (an implementation detail must not raise an alarm)
+                devS = float(np.max(np.abs(S - Mb)))
                 if not diag and m.use_sqrtM:
-                    S = S + 1e-8 * np.eye(d)
-                if np.max(np.abs(S - Mb)) > tolA:
-                    probs.append(f'AGOP differs from the normalised sum of gradient outer products by {np.max(np.abs(S - Mb)):.3g} at batch size {b}')
+                    devS = min(devS, float(np.max(np.abs(S + 1e-8 * np.eye(d) - Mb))))
+                if devS > tolA:
+                    probs.append(f'AGOP differs from the normalised sum of gradient outer products by {devS:.3g} at batch size {b}')
             for p_ in probs:
                 ck.violation(p_ + f' (batch size {b}) on {desc}', dict(desc, b=b, problem=p_), key=json.dumps(dict(site='agop', what=p_[:25], centring=centring)))
             ck.case(dict(desc, b=b), nontrivial=(b < n), sample=(i == 1 and b == 2))
@@ -90,7 +93,9 @@ def run(ck):
             if diag:
                 coq = f'Qlist_close {tolQ} (normalise_vec (agop_diag {d}%nat {coq_bool(centring)} {b}%nat {coq_list([coq_Qmat(p) for p in Gp])})) {coq_Qlist(Mb.tolist())}'
             else:
-                coq = f'mat_close {tolQ} (add_ridge {rq} (normalise_mat (agop {d}%nat {coq_bool(centring)} {b}%nat {coq_list([coq_Qmat(p) for p in Gp])}))) {coq_Qmat(Mb.tolist())}'
+                gq = coq_list([coq_Qmat(p) for p in Gp])
+                coq = (f'(let A := normalise_mat (agop {d}%nat {coq_bool(centring)} {b}%nat {gq}) in let M := {coq_Qmat(Mb.tolist())} in '
+                       f'mat_close {tolQ} (add_ridge {rq} A) M || mat_close {tolQ} A M)')
             cid = len(cases); cases.append((cid, coq)); meta[cid] = dict(desc, b=b)
         # diagonal mode is the diagonal of the full matrix (same gradients, same centring option, any number of outputs)
         with xr.quiet():
@@ -116,10 +121,34 @@ def run(ck):
                 ck.violation(f'stored root does not square back to the stored feature matrix (max dev {np.max(np.abs(RR - Mm)):.3g}) on {desc}', dict(desc), key='root')
         with xr.quiet():
             fresh = m.fit_M(m.centers, nout, M_batch_size=n, inplace=False).double().numpy()
-        if np.max(np.abs(fresh - m.agop_best_model.double().numpy())) > tolA:
+        if np.max(np.abs(fresh - m.agop_best_model.double().numpy())) > tolA + (1.1e-8 if (m.use_sqrtM and not diag) else 0.0):
             ck.violation(f'agop_best_model is not the AGOP of the returned predictor on {desc}', dict(desc), key='agop-best')
         if not diag and not centring:
             md = xr.RealRFM(kernel=kern, iters=0, bandwidth=2.0, exponent=[1.0, 1.3][i % 2], device='cpu', diag=False, verbose=False, **extra)
+    # ---- fast-converging fits: noise-free linear targets, 4-5 rounds, full matrices — consecutive iterates differ by 1e-3 or less; every stored
+    #      (and every per-round) matrix must still come with ITS OWN root, and stay symmetric / PSD / normalised
+    for i in range(ck.n(4, 12)):
+        kern, extra = [('l2', {}), ('l1', {}), ('lpq', dict(norm_p=1.5)), ('sum_power_laplace', {})][i % 4]
+        n, d, nout = 80, 3, [1, 2][i % 2]
+        X = rng.standard_normal((n, d)); W = rng.standard_normal((d, nout)); Y = X @ W
+        iters = [4, 5][i % 2]
+        xr.seed_all(1490 + i + ck.seed)
+        m = xr.RealRFM(kernel=kern, iters=iters, bandwidth=5.0, exponent=1.0, device='cpu', diag=False, verbose=False, tuning_metric='mse', **extra)
+        desc = dict(kind='converging', i=i, kernel=kern, n=n, d=d, nout=nout, iters=iters, seed=ck.seed)
+        try:
+            with xr.quiet():
+                m.fit((T(X), T(Y)), (T(X[:20]), T(Y[:20])), iters=iters, reg=1e-3, verbose=False, return_best_params=False)
+        except Exception as e:
+            ck.violation(f'fit raised {e!r} on {desc}', dict(desc), key='fit-raise'); continue
+        ck.case(desc, nontrivial=True); ck.count('converging fit (linear target)')
+        if m.use_sqrtM and m.sqrtM is not None and m.M is not None:
+            R = m.sqrtM.double().numpy(); Mm = m.M.double().numpy()
+            dev = float(np.max(np.abs(R @ R - Mm)))
+            if dev > 1e-6:
+                ck.violation(f'stored root does not square back to the stored feature matrix (max dev {dev:.3g}) after {iters} rounds on a fast-converging fit on {desc}',
+                             dict(desc, dev=dev), key='root')
+            if np.max(np.abs(Mm - Mm.T)) > 1e-12 or np.linalg.eigvalsh((Mm + Mm.T) / 2).min() < -1e-9 or abs(Mm.max() - 1.0) > 1e-6:
+                ck.violation(f'stored feature matrix is not symmetric PSD with largest entry one on {desc}', dict(desc), key=json.dumps(dict(site='agop', what='converging-structure')))
     res = ck.run_bool_cases('agop', HEADER, cases, shard=12)
     bad = [meta[k] for k, v in res.items() if v is not True]
     ck.obligation(f'correspondence: fit_M for {len(cases)} (model, batch size) pairs == Coq Q model on the gradients the implementation itself returned', 'correspondence',
